@@ -578,7 +578,28 @@ class Interp:
         t = st.target
         load = ast.copy_location(_as_load(t), t)
         cur = self.ev(load, env)
-        new = self.binop(type(st.op), cur, self.ev(st.value, env))
+        rhs = self.ev(st.value, env)
+        # Python mutates containers IN PLACE under an augmented assignment (d |= {...}, l += [...], s |= {...}): every alias
+        # of the object sees the change
+        if isinstance(cur, dict) and isinstance(st.op, ast.BitOr) and isinstance(rhs, dict):
+            if isinstance(cur, FrozenDict):
+                raise Finding("in-place `|=` on a dictionary that belongs to an argument")
+            cur.update(rhs)
+            self.bind(t, cur, env)
+            return
+        if isinstance(cur, list) and isinstance(st.op, ast.Add) and isinstance(rhs, (list, tuple)):
+            if isinstance(cur, FrozenList):
+                raise Finding("in-place `+=` on a list that belongs to an argument")
+            cur.extend(rhs)
+            self.bind(t, cur, env)
+            return
+        if isinstance(cur, set) and isinstance(st.op, (ast.BitOr, ast.BitAnd, ast.Sub)) and isinstance(rhs, (set, frozenset)):
+            if isinstance(st.op, ast.BitOr): cur |= rhs
+            elif isinstance(st.op, ast.BitAnd): cur &= rhs
+            else: cur -= rhs
+            self.bind(t, cur, env)
+            return
+        new = self.binop(type(st.op), cur, rhs)
         self.bind(t, new, env)
 
     def st_Return(self, st, env):
